@@ -1,7 +1,6 @@
 (* C05 driver: one case (= one whole history) per input line, one result line per case.
    case:   <kind> <maxConf|d> <maxTerm|d> <op> <op> ...            (sequential history)
            conc <maxConf|d> <maxTerm|d> <op> ... / <gate> <opA> <opB>  (forced overlap, see harness)
-           late <maxConf|d> <maxTerm|d> <op> ... / <gate> <opA>        (real timer firing while A is parked)
            kind = fsm (mock option handler, proto LCP) | ncp (mock handler, proto IPCP)
                   | lcp | ipcp | ipv6cp (real handlers)
            op   = U | D | O | C | T (timerFired, current generation) | X (timerFired, superseded generation)
@@ -59,14 +58,13 @@ let () =
   let lines = read_lines Sys.argv.(1) in
   let vname = "repaired" in
   let v = { fix_cells = true; fix_ncp = true } in
-  let restore_fixed = true and late_fixed = true in
+  let restore_fixed = true in
   List.iter (fun line ->
     match tokens line with
     | kind0 :: mc :: mt :: ops ->
       (try
         let conc = (kind0 = "conc") in
-        let late = (kind0 = "late") in
-        let kind = if conc || late then "fsm" else kind0 in
+        let kind = if conc then "fsm" else kind0 in
         let mock = (kind = "fsm" || kind = "ncp") in
         let is_lcp = (kind = "fsm" || kind = "lcp") in
         let kindn = z_of_int (match kind with "lcp" -> 1 | "ipcp" -> 2 | "ipv6cp" -> 3 | _ -> 0) in
@@ -126,35 +124,6 @@ let () =
         let is_note x = List.mem x ["tlu"; "tld"; "tls"; "tlf"] in
         let gate_hit gate x = match gate with "a" -> true | "s" -> not (is_note x) | "n" -> is_note x
                                             | "u" -> x = "tlu" | "d" -> x = "tld" | _ -> false in
-        if late then begin
-          match split_at "/" ops with
-          | (prefix, Some [gate; a]) ->
-            let pre = List.map (fun op -> fmt (do_op op)) prefix in
-            let f0 = !f in
-            let (oa, aa, ha) = do_op a in
-            let f1 = !f in
-            let parked = List.exists (gate_hit gate) aa in
-            let valid = fire_still_valid f0 f1 in
-            (* repaired: the timer that was pending before A fires iff A neither stopped nor restarted it;
-               today's code: a callback that was already waiting for the mutex runs Timeout() regardless *)
-            let fires = f0.armed && (valid || ((not late_fixed) && parked)) in
-            let res =
-              if not fires then (oa, aa, ha)
-              else if valid && late_fixed then (let (o2, a2, h2) = do_op "T" in (o2, aa @ a2, ha @ h2))
-              else begin
-                let f2 = raw_timeout f1 in
-                (* a genuine expiry consumes the timer; a late one leaves whatever A armed *)
-                let f2 = if valid then (if List.exists (function Scr _ | Str _ -> true | _ -> false) (outs f2) then f2
-                                        else { f2 with armed = false }) else f2 in
-                f := f2;
-                let (((((s, r), am), l), i), fl) = obs f2 in
-                let a2 = filter_map (show_act mock kindn f2.hlog []) (outs f2) in
-                (Printf.sprintf "%d/%d/%d/%d/%d/%d" (int_of_z s) (int_of_z r) (if am then 1 else 0)
-                   (int_of_z l) (int_of_z i) (int_of_z fl), aa @ a2, ha)
-              end in
-            print_endline (String.concat " " (pre @ [fmt res; (if parked then "ov=1" else "ov=0")]))
-          | _ -> failwith "bad late case"
-        end else
         if not conc then begin
           let outl = List.map (fun op -> fmt (do_op op)) ops in
           print_endline (if outl = [] then "empty" else String.concat " " outl)
